@@ -2,25 +2,53 @@ import PynguinModel.Model.TracerState
 /-!
 # C05 — Tracing keeps recording after an exception inside traced code
 
-Property theorems only.  `exec .repaired` is the tracer after the `try/finally` repair of
-`temporarily_disable`/`temporarily_enable`; `ref` is the specification: what is recorded depends only
-on the lexical `with temporarily_disable()/temporarily_enable()` context, never on which exceptions
-were raised and caught earlier.  `C05_full` shows, for every event list (nested `with` blocks,
-`try/except`, raising callbacks), that the flag-based tracer records exactly what the specification
-records and leaves the flag as it found it.  The remaining theorems are the readable corollaries
-named in the property statement; `C05_legacy_cex` shows that the code before the repair violates it.
+Property theorems only.  `exec .repaired` is the tracer of the tree (`try/finally` in
+`temporarily_disable`/`temporarily_enable`, no flag handling in the checked-coverage callbacks);
+`ref` is the specification: what is recorded depends only on the lexical
+`with temporarily_disable()/temporarily_enable()` context, never on which exceptions — of whatever
+kind, `Exception` or bare `BaseException` — were raised and caught earlier.  `C05_full` shows, for
+every event list (nested `with` blocks, `try/except Exception|BaseException`, predicate callbacks whose
+operand code raises, attribute-access callbacks whose lookup raises, the other checked-coverage
+callbacks), that the flag-based tracer records exactly what the specification records and leaves the
+flag as it found it.  The remaining theorems are the readable corollaries named in the property
+statement; the `…_cex` theorems show that the code before the repair, and a context manager that
+restores in `except Exception:` only, violate it.
 -/
 namespace PynguinModel.TracerState
 
+theorem restores_repaired (r : Option Exc) : Variant.restores .repaired r = true := by
+  cases r <;> rfl
+
 mutual
-/-- One event: the repaired tracer behaves like the flag-free specification run in the context
-given by the current value of the flag, and restores the flag. -/
+/-- One event: the tracer behaves like the flag-free specification run in the context given by the
+current value of the flag, and restores the flag. -/
 theorem exec_refines (s : State) : (e : Ev) →
     exec .repaired s e = (⟨s.enabled, (ref s.enabled s.trace e).1⟩, (ref s.enabled s.trace e).2)
   | .line l => by
     cases s with | mk en t => cases en <;> simp [exec, ref]
-  | .pred p raises => by
-    cases s with | mk en t => cases en <;> cases raises <;> simp [exec, ref]
+  | .codeObj c => by
+    cases s with | mk en t => cases en <;> simp [exec, ref]
+  | .instr i => by
+    cases s with | mk en t => cases en <;> simp [exec, ref]
+  | .pred p body => by
+    cases s with
+    | mk en t =>
+      cases en
+      · simp [exec, ref]
+      · have h := execList_refines ⟨false, t⟩ body
+        simp only [exec, ref, Bool.not_true, Bool.false_eq_true, if_false, if_true]
+        rw [h]
+        cases hr : (refList false t body).2 <;>
+          simp [predFinish, refPredFinish, restore, restores_repaired, hr]
+  | .attr i body => by
+    cases s with
+    | mk en t =>
+      cases en
+      · simp [exec, ref]
+      · have h := execList_refines ⟨true, t⟩ body
+        simp only [exec, ref, Bool.not_true, Bool.false_eq_true, if_false, if_true]
+        rw [h]
+        cases hr : (refList true t body).2 <;> simp [attrFinish, refAttrFinish, hr]
   | .withDisabled body => by
     cases s with
     | mk en t =>
@@ -29,6 +57,7 @@ theorem exec_refines (s : State) : (e : Ev) →
       · have h := execList_refines ⟨false, t⟩ body
         simp only [exec, ref, Bool.not_true, Bool.false_eq_true, if_false]
         rw [h]
+        simp [restore, restores_repaired]
   | .withEnabled body => by
     cases s with
     | mk en t =>
@@ -36,11 +65,15 @@ theorem exec_refines (s : State) : (e : Ev) →
       · have h := execList_refines ⟨true, t⟩ body
         simp only [exec, ref, Bool.false_eq_true, if_false]
         rw [h]
+        simp [restore, restores_repaired]
       · simpa [exec, ref] using execList_refines ⟨true, t⟩ body
-  | .tryExcept body => by
+  | .tryExcept c body => by
     simp only [exec, ref]
     rw [execList_refines s body]
-  | .raise => by simp [exec, ref]
+    cases hr : (refList s.enabled s.trace body).2 with
+    | none => simp [handle, hr]
+    | some e => by_cases hc : c.catches e = true <;> simp [handle, hr, hc]
+  | .raise e => by simp [exec, ref]
 
 theorem execList_refines (s : State) : (es : List Ev) →
     execList .repaired s es
@@ -49,24 +82,44 @@ theorem execList_refines (s : State) : (es : List Ev) →
   | e :: es => by
     simp only [execList, refList]
     rw [exec_refines s e]
-    by_cases h : (ref s.enabled s.trace e).2 = true
+    by_cases h : (ref s.enabled s.trace e).2.isSome = true
     · simp [h]
     · simp only [h, Bool.false_eq_true, if_false]
       rw [execList_refines _ es]
 end
 
-/-- **C05, full statement.**  For every event list and every start state: the repaired tracer
-records exactly what the lexical specification records (so nothing executed after a caught
-exception is lost) and the enabled flag at the end equals the flag at the start. -/
+/-- **C05, full statement.**  For every event list and every start state: the tracer records
+exactly what the lexical specification records (so nothing executed after a caught exception is
+lost), the same exception (if any) propagates, and the enabled flag at the end equals the flag at
+the start. -/
 theorem C05_full (s : State) (es : List Ev) :
     (execList .repaired s es).1.trace = (refList s.enabled s.trace es).1 ∧
     (execList .repaired s es).2 = (refList s.enabled s.trace es).2 ∧
     (execList .repaired s es).1.enabled = s.enabled := by
   rw [execList_refines]; exact ⟨rfl, rfl, rfl⟩
 
-/-- The flag is restored by every single event, raising or not. -/
+/-- The flag is restored by every single event, raising or not — in particular by a predicate
+callback whose operand code raises a bare `BaseException` and by an attribute-access callback whose
+lookup raises. -/
 theorem C05_enabled_restored (s : State) (e : Ev) : (exec .repaired s e).1.enabled = s.enabled := by
   rw [exec_refines]
+
+/-- Between any two events of a block (the executor: between the statements of a test case and
+between their observer brackets) the flag has the value it had at the start. -/
+theorem C05_flag_between_events (s : State) (es : List Ev) :
+    ∀ b ∈ flagsAfter .repaired s es, b = s.enabled := by
+  induction es generalizing s with
+  | nil => simp [flagsAfter]
+  | cons e es ih =>
+    intro b hb
+    simp only [flagsAfter, List.mem_cons] at hb
+    have he := C05_enabled_restored s e
+    rcases hb with hb | hb
+    · rw [hb, he]
+    · by_cases hr : (exec .repaired s e).2.isSome = true
+      · simp [hr] at hb
+      · simp only [hr, Bool.false_eq_true, if_false] at hb
+        rw [ih _ b hb, he]
 
 /-- The flag at the end of each statement of a test case equals the flag at its start, whatever the
 observers and the statement do (including raising out of the statement or out of an observer). -/
@@ -81,38 +134,61 @@ theorem C05_statements_restore_flag (s : State) (sts : List Stmt) :
 
 /-! ### Flat histories: every callback after a caught exception is recorded -/
 
-/-- The lines / predicate evaluations a flat script of callbacks should record. -/
+/-- What a flat script of callbacks should record. -/
 def expectedTrace (t : Trace) : List Ev → Trace
   | [] => t
   | .line l :: cbs => expectedTrace (t.addLine l) cbs
-  | .pred p false :: cbs => expectedTrace (t.bump p) cbs
+  | .codeObj c :: cbs => expectedTrace (t.addCodeObj c) cbs
+  | .instr i :: cbs => expectedTrace (t.addInstr i) cbs
+  | .pred p [] :: cbs => expectedTrace (t.bump p) cbs
+  | .attr i [] :: cbs => expectedTrace (t.addInstr i) cbs
   | _ :: cbs => expectedTrace t cbs
 
-theorem refList_caughtScript (t : Trace) (cbs : List Ev) (h : ∀ c ∈ cbs, c.isCallback = true) :
-    refList true t (caughtScript cbs) = (expectedTrace t cbs, false) := by
+theorem simpleBody_cases (c : Catch) (body : List Ev) (h : simpleBody c body = true) :
+    body = [] ∨ ∃ e, body = [.raise e] ∧ c.catches e = true := by
+  unfold simpleBody at h
+  split at h
+  · exact Or.inl rfl
+  · exact Or.inr ⟨_, rfl, h⟩
+  · cases h
+
+theorem refList_caughtScript (c : Catch) (t : Trace) (cbs : List Ev)
+    (h : ∀ cb ∈ cbs, cb.isCallback c = true) :
+    refList true t (caughtScript c cbs) = (expectedTrace t cbs, none) := by
   induction cbs generalizing t with
   | nil => simp [caughtScript, refList, expectedTrace]
-  | cons c cbs ih =>
-    have hc := h c (by simp)
-    have ht : ∀ c ∈ cbs, c.isCallback = true := fun c hc => h c (by simp [hc])
+  | cons cb cbs ih =>
+    have hc := h cb (by simp)
+    have ht : ∀ cb ∈ cbs, cb.isCallback c = true := fun cb hcb => h cb (by simp [hcb])
     have ih' := fun t => ih t ht
     simp only [caughtScript, List.map_cons] at ih' ⊢
-    cases c with
-    | line l => simp [refList, ref, expectedTrace, ih']
-    | pred p r => cases r <;> simp [refList, ref, expectedTrace, ih']
+    cases cb with
+    | line l => simp [refList, ref, handle, expectedTrace, ih']
+    | codeObj k => simp [refList, ref, handle, expectedTrace, ih']
+    | instr i => simp [refList, ref, handle, expectedTrace, ih']
+    | pred p body =>
+      rcases simpleBody_cases c body hc with rfl | ⟨e, rfl, he⟩
+      · simp [refList, ref, handle, refPredFinish, expectedTrace, ih']
+      · simp [refList, ref, handle, refPredFinish, expectedTrace, ih', he]
+    | attr i body =>
+      rcases simpleBody_cases c body hc with rfl | ⟨e, rfl, he⟩
+      · simp [refList, ref, handle, refAttrFinish, expectedTrace, ih']
+      · simp [refList, ref, handle, refAttrFinish, expectedTrace, ih', he]
     | withDisabled b => simp [Ev.isCallback] at hc
     | withEnabled b => simp [Ev.isCallback] at hc
-    | tryExcept b => simp [Ev.isCallback] at hc
-    | raise => simp [Ev.isCallback] at hc
+    | tryExcept c' b => simp [Ev.isCallback] at hc
+    | raise e => simp [Ev.isCallback] at hc
 
-/-- **Every line and predicate callback is recorded, whatever raised and was caught before it.**
-For every script of callbacks made while tracing is enabled, in which the module under test catches
-each exception a callback raises, the trace holds exactly the expected lines and predicate counts,
-tracing is still enabled and no exception escapes. -/
-theorem C05_records_after_caught_exceptions (t : Trace) (cbs : List Ev)
-    (h : ∀ c ∈ cbs, c.isCallback = true) :
-    execList .repaired ⟨true, t⟩ (caughtScript cbs) = (⟨true, expectedTrace t cbs⟩, false) := by
-  rw [execList_refines, refList_caughtScript t cbs h]
+/-- **Every callback is recorded, whatever raised and was caught before it.**  For every script of
+callbacks (line, code object, instruction, predicate, attribute access) made while tracing is
+enabled, in which the module under test catches — with `except Exception` or `except BaseException`,
+whichever fits — each exception that a predicate's operands or an attribute lookup raise, the trace
+holds exactly the expected lines, predicate counts, instructions and code objects, tracing is still
+enabled and no exception escapes. -/
+theorem C05_records_after_caught_exceptions (c : Catch) (t : Trace) (cbs : List Ev)
+    (h : ∀ cb ∈ cbs, cb.isCallback c = true) :
+    execList .repaired ⟨true, t⟩ (caughtScript c cbs) = (⟨true, expectedTrace t cbs⟩, none) := by
+  rw [execList_refines, refList_caughtScript c t cbs h]
 
 theorem mem_addLine (ls : List Nat) (l x : Nat) : x ∈ addLine ls l ↔ x ∈ ls ∨ x = l := by
   unfold addLine
@@ -127,8 +203,8 @@ theorem mem_expectedTrace_lines (t : Trace) (cbs : List Ev) (x : Nat) :
     x ∈ (expectedTrace t cbs).lines ↔ x ∈ t.lines ∨ Ev.line x ∈ cbs := by
   induction cbs generalizing t with
   | nil => simp [expectedTrace]
-  | cons c cbs ih =>
-    cases c with
+  | cons cb cbs ih =>
+    cases cb with
     | line l =>
       simp only [expectedTrace, ih, Trace.addLine, mem_addLine, List.mem_cons, Ev.line.injEq]
       constructor
@@ -140,21 +216,78 @@ theorem mem_expectedTrace_lines (t : Trace) (cbs : List Ev) (x : Nat) :
         · exact Or.inl (Or.inl h)
         · exact Or.inl (Or.inr h)
         · exact Or.inr h
-    | pred p r => cases r <;> simp [expectedTrace, ih, Trace.bump]
+    | codeObj k => simp [expectedTrace, ih, Trace.addCodeObj]
+    | instr i => simp [expectedTrace, ih, Trace.addInstr]
+    | pred p body => cases body <;> simp [expectedTrace, ih, Trace.bump]
+    | attr i body => cases body <;> simp [expectedTrace, ih, Trace.addInstr]
     | withDisabled b => simp [expectedTrace, ih]
     | withEnabled b => simp [expectedTrace, ih]
-    | tryExcept b => simp [expectedTrace, ih]
-    | raise => simp [expectedTrace, ih]
+    | tryExcept c b => simp [expectedTrace, ih]
+    | raise e => simp [expectedTrace, ih]
+
+theorem instrs_subset_expectedTrace (t : Trace) (cbs : List Ev) (x : Nat) (hx : x ∈ t.instrs) :
+    x ∈ (expectedTrace t cbs).instrs := by
+  induction cbs generalizing t with
+  | nil => simpa [expectedTrace] using hx
+  | cons cb cbs ih =>
+    cases cb with
+    | line l => exact ih _ (by simpa [Trace.addLine] using hx)
+    | codeObj k => exact ih _ (by simpa [Trace.addCodeObj] using hx)
+    | instr i => exact ih _ (by simp [Trace.addInstr, hx])
+    | pred p body =>
+      cases body with
+      | nil => exact ih _ (by simpa [Trace.bump] using hx)
+      | cons b bs => simpa [expectedTrace] using ih _ hx
+    | attr i body =>
+      cases body with
+      | nil => exact ih _ (by simp [Trace.addInstr, hx])
+      | cons b bs => simpa [expectedTrace] using ih _ hx
+    | withDisabled b => simpa [expectedTrace] using ih _ hx
+    | withEnabled b => simpa [expectedTrace] using ih _ hx
+    | tryExcept c b => simpa [expectedTrace] using ih _ hx
+    | raise e => simpa [expectedTrace] using ih _ hx
+
+theorem mem_expectedTrace_instrs (t : Trace) (cbs : List Ev) (i : Nat) (hi : Ev.instr i ∈ cbs) :
+    i ∈ (expectedTrace t cbs).instrs := by
+  induction cbs generalizing t with
+  | nil => cases hi
+  | cons cb cbs ih =>
+    rcases List.mem_cons.1 hi with rfl | hi'
+    · exact instrs_subset_expectedTrace _ cbs i (by simp [Trace.addInstr])
+    · cases cb with
+      | line l => exact ih _ hi'
+      | codeObj k => exact ih _ hi'
+      | instr j => exact ih _ hi'
+      | pred p body =>
+        cases body with
+        | nil => exact ih _ hi'
+        | cons b bs => simpa [expectedTrace] using ih t hi'
+      | attr j body =>
+        cases body with
+        | nil => exact ih _ hi'
+        | cons b bs => simpa [expectedTrace] using ih t hi'
+      | withDisabled b => simpa [expectedTrace] using ih t hi'
+      | withEnabled b => simpa [expectedTrace] using ih t hi'
+      | tryExcept c b => simpa [expectedTrace] using ih t hi'
+      | raise e => simpa [expectedTrace] using ih t hi'
 
 /-- In particular: a line visited anywhere in such a script — e.g. after a comparison that raised
-inside the tracer and was caught by the module under test — is covered at the end. -/
-theorem C05_line_after_exception_is_covered (t : Trace) (cbs : List Ev)
-    (h : ∀ c ∈ cbs, c.isCallback = true) (l : Nat) (hl : Ev.line l ∈ cbs) :
-    l ∈ (execList .repaired ⟨true, t⟩ (caughtScript cbs)).1.trace.lines := by
-  rw [C05_records_after_caught_exceptions t cbs h]
+`SystemExit` inside the tracer, or an attribute lookup that raised `AttributeError`, and was caught
+by the module under test — is covered at the end. -/
+theorem C05_line_after_exception_is_covered (c : Catch) (t : Trace) (cbs : List Ev)
+    (h : ∀ cb ∈ cbs, cb.isCallback c = true) (l : Nat) (hl : Ev.line l ∈ cbs) :
+    l ∈ (execList .repaired ⟨true, t⟩ (caughtScript c cbs)).1.trace.lines := by
+  rw [C05_records_after_caught_exceptions c t cbs h]
   exact (mem_expectedTrace_lines t cbs l).2 (Or.inr hl)
 
-/-! ### The code before the repair violates the property -/
+/-- …and an instruction reported anywhere in such a script is in `executed_instructions`. -/
+theorem C05_instruction_after_exception_is_recorded (c : Catch) (t : Trace) (cbs : List Ev)
+    (h : ∀ cb ∈ cbs, cb.isCallback c = true) (i : Nat) (hi : Ev.instr i ∈ cbs) :
+    i ∈ (execList .repaired ⟨true, t⟩ (caughtScript c cbs)).1.trace.instrs := by
+  rw [C05_records_after_caught_exceptions c t cbs h]
+  exact mem_expectedTrace_instrs t cbs i hi
+
+/-! ### Other ways of writing the context managers violate the property -/
 
 /-- The full statement, for a variant of the code. -/
 def C05_holds (v : Variant) : Prop :=
@@ -169,29 +302,58 @@ theorem C05_holds_repaired : C05_holds .repaired :=
 exception is caught by the module under test, then line 7 is visited.  Without `try/finally` the
 tracer stays disabled and line 7 is lost. -/
 theorem C05_legacy_cex :
-    execList .legacy ⟨true, ⟨[], []⟩⟩ [.tryExcept [.pred 0 true], .line 7]
-      = (⟨false, ⟨[], []⟩⟩, false) ∧
-    refList true ⟨[], []⟩ [.tryExcept [.pred 0 true], .line 7] = (⟨[7], []⟩, false) := by
+    execList .legacy ⟨true, ⟨[], [], [], []⟩⟩
+        [.tryExcept .exception [.pred 0 [.raise .exception]], .line 7]
+      = (⟨false, ⟨[], [], [], []⟩⟩, none) ∧
+    refList true ⟨[], [], [], []⟩ [.tryExcept .exception [.pred 0 [.raise .exception]], .line 7]
+      = (⟨[7], [], [], []⟩, none) := by
   decide
 
 theorem C05_legacy_violates : ¬ C05_holds .legacy := by
   intro h
-  have := (h ⟨true, ⟨[], []⟩⟩ [.tryExcept [.pred 0 true], .line 7]).2
+  have := (h ⟨true, ⟨[], [], [], []⟩⟩
+    [.tryExcept .exception [.pred 0 [.raise .exception]], .line 7]).2
+  revert this
+  decide
+
+/-- Restoring in `except Exception:` instead of `finally:` is not enough: a comparison operator
+that raises `SystemExit`, caught by the module with `except BaseException` (or `except SystemExit`),
+leaves the tracer disabled; line 7 and instruction 3 are lost. -/
+theorem C05_exceptionOnly_cex :
+    execList .exceptionOnly ⟨true, ⟨[], [], [], []⟩⟩
+        [.tryExcept .base [.pred 0 [.raise .base]], .line 7, .instr 3]
+      = (⟨false, ⟨[], [], [], []⟩⟩, none) ∧
+    refList true ⟨[], [], [], []⟩ [.tryExcept .base [.pred 0 [.raise .base]], .line 7, .instr 3]
+      = (⟨[7], [], [3], []⟩, none) := by
+  decide
+
+theorem C05_exceptionOnly_violates : ¬ C05_holds .exceptionOnly := by
+  intro h
+  have := (h ⟨true, ⟨[], [], [], []⟩⟩ [.tryExcept .base [.pred 0 [.raise .base]], .line 7]).2
   revert this
   decide
 
 /-! ### Non-vacuity -/
 
-example : execList .repaired ⟨true, ⟨[], []⟩⟩
-    ((Stmt.mk [.line 1] [.tryExcept [.pred 0 true], .line 7, .pred 3 false, .raise, .line 8]
-        [.line 2, .withEnabled [.pred 4 false]]).events ++ [.line 9])
-    = (⟨true, ⟨[7, 9], [(3, 1), (4, 1)]⟩⟩, false) := by decide
+example : execList .repaired ⟨true, ⟨[], [], [], []⟩⟩
+    ((Stmt.mk [.line 1]
+        [.tryExcept .exception [.pred 0 [.line 5, .raise .exception]], .line 7, .pred 3 [],
+         .tryExcept .base [.attr 2 [.line 6, .raise .base]], .instr 4, .raise .base, .line 8]
+        [.line 2, .withEnabled [.pred 4 []]]).events ++ [.line 9])
+    = (⟨true, ⟨[7, 6, 9], [(3, 1), (4, 1)], [4], []⟩⟩, none) := by decide
 
-example : ∀ c ∈ [Ev.pred 0 true, .line 7, .pred 1 false, .pred 1 false],
-    c.isCallback = true := by decide
+example : ∀ cb ∈ [Ev.pred 0 [.raise .base], .line 7, .attr 5 [.raise .exception], .instr 2,
+    .pred 1 [], .pred 1 [], .attr 6 [], .codeObj 0], cb.isCallback .base = true := by decide
 
-example : execList .repaired ⟨true, ⟨[], []⟩⟩
-    (caughtScript [.pred 0 true, .line 7, .pred 1 false, .pred 1 false])
-    = (⟨true, ⟨[7], [(1, 2)]⟩⟩, false) := by decide
+example : execList .repaired ⟨true, ⟨[], [], [], []⟩⟩
+    (caughtScript .base [.pred 0 [.raise .base], .line 7, .attr 5 [.raise .exception], .instr 2,
+      .pred 1 [], .pred 1 [], .attr 6 [], .codeObj 0])
+    = (⟨true, ⟨[7], [(1, 2)], [2, 6], [0]⟩⟩, none) := by decide
+
+/-- an `except Exception` handler does not stop a `BaseException`: it propagates to the executor's
+wrapper, the flag is restored on the way and the next statement is recorded -/
+example : execList .repaired ⟨true, ⟨[], [], [], []⟩⟩
+    [.tryExcept .base [.tryExcept .exception [.pred 0 [.raise .base]], .line 1], .line 2]
+    = (⟨true, ⟨[2], [], [], []⟩⟩, none) := by decide
 
 end PynguinModel.TracerState
